@@ -60,7 +60,7 @@ def mkprobe(name, shape=None, setup=False):
             return val
         node = getattr(B.TLS, "node", None)
         ex = B.cur_exec()
-        tok = ex.token if ex is not None else None
+        tok = B.cur_token()
         B.REACH["FENTER"] += 1
         B.ev("FENTER", token=tok, node=node, fn=name, args=a, kwargs=dict(k))
         with State.lock:
